@@ -4,7 +4,19 @@ seeding agent, meta.json) from the scratch directories of a seeding session and 
 by tools/eval_mutant.py.  usage: store_seeded.py <scratch-root> (default /tmp/mut)"""
 import sys, os, json, glob, shutil, re
 root = sys.argv[1] if len(sys.argv) > 1 else '/tmp/mut'
+label = sys.argv[2] if len(sys.argv) > 2 else 'm'      # change names are <P>-<label><k>
 needs = json.load(open('/verif/tools/seeded_needs.json'))
+# changes of a later round are described by the title line of the seeding agent's README
+for d in sorted(glob.glob(os.path.join(root, 'C??', 'out', 'm?'))):
+    prop = d.split('/')[-3]
+    key = '%s-%s%s' % (prop, label, d[-1])
+    if key not in needs:
+        title = ''
+        for f in glob.glob(os.path.join(d, 'README*')):
+            lines = [l.strip() for l in open(f) if l.strip() and not set(l.strip()) <= set('=-')]
+            if lines: title = re.sub(r'^(C\d\d )?[Ss]eeded bug m\d\s*(--|:|-|\u2014)?\s*', '', lines[0])
+        needs[key] = title or '(see README)'
+keys = [k for k in sorted(needs) if re.match(r'C\d\d-%s\d$' % label, k)]
 def load(f):
     try: return json.load(open(f))
     except Exception: return None
@@ -19,8 +31,9 @@ def verdict(ev, prop):
             k = m.group(1)
             by.append('harness ' + k.split(':')[1] if k.startswith('harness:') else 'obligation ' + k)
     return {'caught': caught, 'by': sorted(set(by))[:4]}
-for key in sorted(needs):
+for key in keys:
     prop, m = key.split('-')
+    m = 'm' + m[-1]
     src = os.path.join(root, prop, 'out', m)
     if not os.path.isdir(src): continue
     dst = os.path.join('/verif/seeded', key)
@@ -29,6 +42,8 @@ for key in sorted(needs):
         if f.endswith('.log'): continue
         shutil.copy(os.path.join(src, f), os.path.join(dst, f))
     tag = '%s_out_%s' % (prop, m)
+    if label != 'm':
+        tag = label + '_' + tag
     runs = [('first', load(os.path.join(root, 'eval_%s.json' % tag))), ('second', load(os.path.join(root, 'eval3_%s.json' % tag))), ('final', load(os.path.join(root, 'eval4_%s.json' % tag)))]
     conf = next((e for _, e in runs if e and 'existing_tests_pass_with_patch' in e), None)
     meta = {'property': prop, 'change': key, 'origin': 'fresh agent given only the property text and a scratch worktree of /repo',
